@@ -29,9 +29,11 @@ ZN = "ZN"  # zero baseline, not reporting
 ZA = "ZA"  # zero baseline, absent from feed
 B = "B"  # unit-blocklisted, reporting
 BN = "BN"  # unit-blocklisted, below threshold
+BZ = "BZ"  # unit-blocklisted AND zero baseline, reporting (two applicable reasons)
+BZN = "BZN"  # unit-blocklisted AND zero baseline, below threshold
 T_HI = "TH"  # reporting, turnout factor >= upper limit
 T_LO = "TL"  # reporting, turnout factor <= lower limit
-OTHER_STATUSES = [N, N, N, N0, NH, A, Z, ZN, ZA, B, BN, T_HI, T_LO]
+OTHER_STATUSES = [N, N, N, N0, NH, A, Z, ZN, ZA, B, BN, BZ, BZN, T_HI, T_LO]
 
 
 def nonparam_min_units(alpha):
@@ -114,6 +116,7 @@ def election_case(
     tf_limits=((0.5, 2.0), (0.5, 2.0), (0.8, 1.25)),
     swing_scale=1.0,
     min_nonrep=0,
+    unit_types=("precinct", "precinct", "precinct", "county"),
 ):
     pi = draw(st.sampled_from(list(estimators)))
     office = draw(st.sampled_from(list(offices)))
@@ -256,15 +259,15 @@ def election_case(
         x1 = round(float(rng.normal(0, 1)), 4)
         x2 = round(float(rng.normal(0, 1)), 4)
         bd, bg, bo = _baseline(rng, small=(rng.random() < 0.04))
-        if status in (Z, ZN, ZA):
+        if status in (Z, ZN, ZA, BZ, BZN):
             # zero baseline: zero turnout (vote estimands) and zero two-party vote (margin)
             bd, bg, bo = 0, 0, 0
         fd, fg, fo = _final_results(rng, bd, bg, bo, x1, state_shift[s], swing_scale)
         feed = None
-        if status in (R, RB, B, Z):
+        if status in (R, RB, B, Z, BZ):
             pev = thr if status == RB else draw(st.sampled_from([100, 100, 100, max(thr, 99.5), 105])) if thr <= 100 else thr
             pev = max(pev, thr)
-            if status == Z:
+            if status in (Z, BZ):
                 fd, fg, fo = int(rng.integers(0, 30)), int(rng.integers(0, 30)), int(rng.integers(0, 5))
             feed = {"pev": pev, "rd": fd, "rg": fg, "ro": fo}
         elif status in (T_HI, T_LO):
@@ -283,7 +286,7 @@ def election_case(
                 f = 3.0 if status == T_HI else 0.25
                 fd, fg, fo = int(bd * f), int(bg * f), int(bo * f)
             feed = {"pev": max(thr, 100), "rd": fd, "rg": fg, "ro": fo}
-        elif status in (N, BN, ZN, NH):
+        elif status in (N, BN, ZN, NH, BZN):
             if thr <= 0:
                 pev = 0
             else:
@@ -295,7 +298,7 @@ def election_case(
                 pd_, pg_, po_ = fd * hard_factor, fg * hard_factor, fo * hard_factor
                 if pev == 0:
                     pev = min(50, thr - 1e-9) if thr > 0 else 0
-            elif status == ZN:
+            elif status in (ZN, BZN):
                 pd_, pg_, po_ = int(rng.integers(0, 9)), int(rng.integers(0, 9)), 0
             else:
                 pd_, pg_, po_ = int(fd * frac), int(fg * frac), int(fo * frac)
@@ -303,7 +306,7 @@ def election_case(
         elif status == N0:
             feed = {"pev": 0, "rd": 0, "rg": 0, "ro": 0}
         # A, ZA: absent
-        if status in (B, BN):
+        if status in (B, BN, BZ, BZN):
             blocklist.append(uid)
         units.append(
             {
@@ -344,6 +347,23 @@ def election_case(
             zero2 = draw(st.integers(0, 5)) == 0
             rd, rg, ro = (0, 0, int(rng.integers(0, 50))) if zero2 else (int(rng.integers(0, 900)), int(rng.integers(0, 900)), int(rng.integers(0, 60)))
             extra.append({"id": uid, "st": s, "pev": pev, "rd": rd, "rg": rg, "ro": ro})
+
+    # county-level feeds: every unit is a whole county (ids "<county>" / "<district>_<county>")
+    if unit_types and draw(st.sampled_from(list(unit_types))) == "county":
+        gut = "county-district" if district else "county"
+        renamed = {}
+        for i, u in enumerate(units):
+            si = states.index(u["st"])
+            u["county"] = f"{si + 1}{i + 100:03d}"
+            new_id = f"{u['dist']}_{u['county']}" if district else u["county"]
+            renamed[u["id"]] = new_id
+            u["id"] = new_id
+        if "unit_blocklist" in mp:
+            mp["unit_blocklist"] = [renamed.get(b, b) for b in mp["unit_blocklist"]]
+        for k, e in enumerate(extra):
+            parts_ = e["id"].split("_")
+            si = states.index(e["st"])
+            e["id"] = f"{parts_[0]}_{si + 1}9{k:02d}0" if district else f"{si + 1}9{k:02d}0"
 
     case = {
         "office": office,
